@@ -521,10 +521,14 @@ def explore_failed_step(run, focus, n):
         run.case(cj, nontrivial=True)
 
 
-def run_eager_recall(k, chain, instrumented, posts_after):
+class HandlerFault(Exception):
+    pass
+
+
+def run_eager_recall(k, chain, instrumented, posts_after, raise_on=None):
     """k deferred events (payloads 0..k-1), an OTHER event (payload 1000+j) posted after the deferrals listed in posts_after, then
     recalls from outside until one returns None; returns (driver ops, dispatched, returned, still deferred, still queued, error)"""
-    dispatched, returned, ops = [], [], []
+    dispatched, returned, ops, raised = [], [], [], []
 
     class Eager(mhsm.HsmWithQueues):
         _running = False
@@ -550,6 +554,9 @@ def run_eager_recall(k, chain, instrumented, posts_after):
     def st(chart, e):
         if e.signal_name in ("DEFERRED_WORK", "OTHER"):
             dispatched.append(e.payload)
+            if raise_on is not None and e.payload == raise_on and not raised:
+                raised.append(e.payload)
+                raise HandlerFault("the handler of %r failed" % (e.payload,))      # once: the step fails, the event HAS been dispatched
             if chain and e.signal_name == "DEFERRED_WORK":
                 r = chart.recall()
                 returned.append(None if r is None else r.payload)
@@ -569,9 +576,14 @@ def run_eager_recall(k, chain, instrumented, posts_after):
             if i in posts_after:
                 hsm.post_fifo(Event(signal="OTHER", payload=1000 + i))
                 ops += [2, 1000 + i]
-        for _j in range(k + 1):
+        for _j in range(k + 2):
             ops += [1, 0]
-            r = hsm.recall()
+            try:
+                r = hsm.recall()
+            except HandlerFault:
+                returned.append("fault")
+                hsm._running = False
+                continue
             returned.append(None if r is None else r.payload)
             if r is None:
                 break
@@ -593,8 +605,17 @@ def explore_eager_recall(run, n):
         chain = rng.random() < 0.8          # the handler recalls the next one when handed a released event
         instrumented = rng.random() < 0.5
         posts_after = sorted(i for i in range(k) if rng.random() < 0.3)
-        ops, dispatched, returned, dq, q, err = run_eager_recall(k, chain, instrumented, posts_after)
-        cj = {"what": "eager-recall", "deferred": k, "chain": chain, "instrumented": instrumented, "posts_after": posts_after}
+        raise_on = rng.randrange(k) if rng.random() < 0.25 else None      # the handler of that event fails once (the exception escapes recall())
+        ops, dispatched, returned, dq, q, err = run_eager_recall(k, chain, instrumented, posts_after, raise_on)
+        cj = {"what": "eager-recall", "deferred": k, "chain": chain, "instrumented": instrumented, "posts_after": posts_after, "raise_on": raise_on}
+        if raise_on is not None:
+            run.count("a handler fails during the step a recall's post started")
+            got = [d for d in dispatched if isinstance(d, int) and d < 1000]
+            if err or sorted(got) != sorted(set(got)) or got != sorted(got):
+                run.violate("C15/recall-after-failed-step", "%d events deferred in order; the handler of event %d raises once; recalls returned %s; dispatched %s "
+                            "(each deferred event at most once, in deferral order)%s" % (k, raise_on, returned, got, "; " + err if err else ""), cj)
+            run.case(cj, nontrivial=True)
+            continue
         run.count("recall from inside the step an outer recall started" if chain else "recall on a chart that runs at every post")
         got = [d for d in dispatched if d < 1000]
         rets = [x for x in returned if x is not None]
@@ -784,7 +805,7 @@ def upto(cj, idx):
 def replay(case):
     cc = case.get("case", case)
     if cc.get("what") == "eager-recall":
-        print(run_eager_recall(cc["deferred"], cc["chain"], cc["instrumented"], cc.get("posts_after", [])))
+        print(run_eager_recall(cc["deferred"], cc["chain"], cc["instrumented"], cc.get("posts_after", []), cc.get("raise_on")))
         return 0
     if cc.get("what") in ("failed-step", "nested-circuit"):
         print(cc.get("what"), "case:", cc)
